@@ -59,6 +59,13 @@ CLAIMED["C11"] = dict(
     note="Processing time between waits is modelled as zero; integer ticks; <= K would-blocks per call (bounded unrolling, no loop-head induction).",
 )
 
+CLAIMED["C10"] = dict(
+    text="Bounded symbolic execution of the real StreamReaderBufferedProtocol + AsyncioTransportStreamSocketAdapter on a deterministic event loop with real asyncio tasks: a solver-chosen sequence of K events (loop iteration / kernel delivers k bytes / task.cancel() or expiry of the enclosing move_on_after scope) with symbolic arrival and receive sizes, then a drain. Asserted: everything returned by successful receives, concatenated, equals the stream (no byte lost, duplicated or reordered), no receive raises, the drain terminates.",
+    design="4/C10",
+    technique="symbolic execution of real code (CrossHair+z3) over event schedules and sizes on a deterministic asyncio loop",
+    note="Schedule/size space exhaustion: stream contents are concrete distinct bytes; the solver decides event order, arrival sizes and receive sizes. Endpoint/server-level variants are covered by C03/C15 checks.",
+)
+
 NOT_APPLICABLE = {
     "C08": "TLS byte-transparency/encryption is decided inside OpenSSL's record layer (C code, cryptography): it cannot be executed symbolically by any installed engine; stubbing it would verify the stub, and running real OpenSSL realises every symbolic size (degenerates to concrete enumeration). See DESIGN.md section 5.",
     "C09": "Whether a cut at a byte offset of a real ciphertext stream yields SSLEOFError / SSLZeroReturnError / a protocol error is OpenSSL's partial-record parsing, not encodable; the EasyNetwork part is a three-way exception mapping. See DESIGN.md section 5.",
